@@ -1,5 +1,6 @@
 import RavenModel.Model.MimeHeader
 import RavenModel.Model.MimeWriter
+import RavenModel.Model.MimeMessage
 import RavenModel.Model.Mime
 import RavenModel.Model.PartTree
 import RavenModel.Model.Headers
@@ -96,6 +97,18 @@ set_option maxRecDepth 100000 in
 theorem exampleTree_fresh : Mime.fresh Mime.readHeader exampleTree = true := by decide
 example : Mime.parse Mime.readHeader 3 (Mime.core exampleTree) = some exampleTree :=
   tree_as_written exampleTree 3 (by decide) exampleTree_fresh
+
+/-- C02.6‴  the reader that the correspondence runs on every fetched text (`Mime.parseMessage`, driver op `mm.observe`: it
+picks its own fuel from the length of the text) inverts the writer on every message that meets the decidable side conditions
+`freshMessage`: a container nested to any depth, or a single entity. The theorem is about the function that is executed
+against the implementation, not about a relative of it. -/
+theorem fetched_text_reads_back (t : Mime.Tree) (h : Mime.freshMessage t = true) :
+    Mime.parseMessage (Mime.message t) = some t :=
+  Mime.parseMessage_written t h
+
+set_option maxRecDepth 100000 in
+/-- non-vacuity: the example message meets the side conditions -/
+theorem exampleTree_freshMessage : Mime.freshMessage exampleTree = true := by decide
 
 /-- C02.6 (full statement)  …without the side condition -/
 def tree_as_written_full : Prop :=
